@@ -119,8 +119,8 @@ def _mean_cases():
         st.one_of(st.floats(-PI, TWOPI), st.sampled_from([0.0, TWOPI, PI, -PI, 1e-9, TWOPI - 1e-9])),
         st.sampled_from([1e-6, 1e-3, 0.1, 1.0]),
         st.lists(st.floats(-1, 1), min_size=3, max_size=13),
-        st.sampled_from(["uniform", "none", "ukf", "positive"]),
-        st.sampled_from([1.0, 0.5, 0.1, 1e-3]),
+        st.sampled_from(["uniform", "none", "ukf", "ukf", "positive"]),
+        st.sampled_from([1.0, 0.5, 0.1, 1e-3, 1e-4, 3e-5]),
         st.lists(st.integers(-3, 3), min_size=13, max_size=13),
         st.floats(-TWOPI, TWOPI),
         st.sampled_from([[0.0, TWOPI], [-PI, PI]]),
@@ -156,11 +156,14 @@ def angular_mean(c, rec):
         wv = _ukf_weights(half, c["alpha"], 2.0, 3.0 - half)
         w = wv
     s, co = float(np.sum(wv * np.sin(ang))), float(np.sum(wv * np.cos(ang)))
-    res_len = math.hypot(s, co) / max(1e-300, float(np.sum(np.abs(wv))))
-    if res_len < 1e-7:
+    # rounding of the weighted sums is ~eps * sum|w| (the centre weight of a sigma set is ~ -1/alpha^2); the direction of the
+    # resultant is meaningful as long as its length is far above that
+    res = math.hypot(s, co)
+    noise = 4 * np.finfo(float).eps * float(np.sum(np.abs(wv))) * len(wv)
+    if res < 1e4 * noise or res < 1e-7 * float(abs(np.sum(wv))):
         raise Skip("resultant vector ~ 0: circular mean undefined")
     ref = math.atan2(s, co)
-    tol = 1e-10 / res_len
+    tol = max(1e-10, 50 * noise / res)
     near_seam = min(_angdiff(ref, low), _angdiff(ref, 0.0), _angdiff(ref, PI)) < 1e-6
     if near_seam or (w is not None and wv[0] < 0) or any(c["turn"][:n]):
         rec.nontrivial([round(c["centre"], 4), c["spread"], c["kind"], c["alpha"], n, low])
@@ -325,7 +328,7 @@ def _filter_cases():
         st.one_of(st.floats(0, TWOPI, exclude_max=True), st.sampled_from([0.0, 1e-7, TWOPI - 1e-7, PI, PI / 2])),
         st.floats(0.2, 1.3), st.floats(800.0, 30000.0),
         st.lists(st.floats(-1.5, 1.5), min_size=6, max_size=6),
-        st.sampled_from([1.0, 0.5, 0.05, 1e-3]), st.booleans(), st.sampled_from([10.0, 60.0]),
+        st.sampled_from([1.0, 0.5, 0.05, 1e-3, 1e-3, 1e-4]), st.booleans(), st.sampled_from([10.0, 60.0]),
         st.integers(-5, 5), st.integers(-5, 5), st.sampled_from([0.0, 1e-9, -1e-9, 1e-6, -1e-6, 1e-4, -1e-4, 0.3]),
         st.lists(st.sampled_from(["optical", "radar"]), min_size=1, max_size=4),
         st.permutations([0, 1, 2, 3]), st.sampled_from(["az", "el", "both"]),
